@@ -317,28 +317,37 @@ def rowSpec (j : Nat) (a : ARow α X) (m : Cur α (Option X) String) : ARow α X
 /-- the row carries no abscissae (a table without `ext_x`) -/
 def NoX (c : Cur α (Option X) String) : Prop := c.hi.x = none ∧ c.lo.x = none
 
-theorem step_uniform (hx t0 t1 : Bool) (j : Nat) (a : ARow α X) (m : Cur α (Option X) String)
-    (hna : hx = false → NoX a.cur) (hnm : hx = false → NoX m) :
-    stepLo (hx || (hx && t0)) hx t1 (stepHi hx hx t0 (recordRow hx j a m) m) m = rowSpec j a m := by
+/-- one later call seen from one row, whatever the two sides have of abscissae: it is the value-level
+compare-and-replace, PROVIDED a table without `ext_x` carries NaN abscissae (`hna`, `hnm`) and the
+flags `t0`, `t1` (`j.size > 0`) are set whenever this row is replaced -/
+theorem step_rowwise (accX valX t0 t1 : Bool) (j : Nat) (a : ARow α X) (m : Cur α (Option X) String)
+    (hna : accX = false → NoX a.cur) (hnm : valX = false → NoX m)
+    (h0 : nanRepl gtB a.cur.hi.v m.hi.v = true → t0 = true)
+    (h1 : nanRepl ltB a.cur.lo.v m.lo.v = true → t1 = true) :
+    stepLo (accX || (valX && t0)) valX t1 (stepHi accX valX t0 (recordRow valX j a m) m) m
+      = rowSpec j a m := by
   obtain ⟨⟨⟨ahv, ahx, ahl⟩, ⟨alv, alx, all⟩⟩, mx, mn, mxx, mnx⟩ := a
   obtain ⟨⟨mhv, mhx, mhl⟩, ⟨mlv, mlx, mll⟩⟩ := m
-  cases hx
-  · obtain ⟨h1, h2⟩ := hna rfl
-    obtain ⟨h3, h4⟩ := hnm rfl
-    simp only at h1 h2 h3 h4
-    subst h1 h2 h3 h4
-    simp only [stepLo, stepHi, recordRow, rowSpec, putTime, putTimeOther, upd2, Tr.upd, Bool.false_or,
-      Bool.false_and, Bool.false_eq_true, if_false, Bool.not_false, Bool.and_true,
-      ARow.mk.injEq, Cur.mk.injEq, and_true]
-    refine ⟨?_, ?_⟩
-    · split <;> rfl
-    · split <;> rfl
-  · simp only [stepLo, stepHi, recordRow, rowSpec, putTime, putTimeOther, upd2, Tr.upd, Bool.true_or,
-      if_true, Bool.not_true, Bool.and_false, Bool.false_and, Bool.false_eq_true, if_false,
-      ARow.mk.injEq, Cur.mk.injEq, and_true]
-    refine ⟨?_, ?_⟩
-    · split <;> rfl
-    · split <;> rfl
+  simp only at h0 h1
+  cases accX <;> cases valX
+  · obtain ⟨e1, e2⟩ := hna rfl
+    obtain ⟨e3, e4⟩ := hnm rfl
+    simp only at e1 e2 e3 e4
+    subst e1 e2 e3 e4
+    cases hr0 : nanRepl gtB ahv mhv <;> cases hr1 : nanRepl ltB alv mlv <;>
+      simp [stepLo, stepHi, recordRow, rowSpec, putTime, putTimeOther, upd2, Tr.upd, hr0, hr1]
+  · obtain ⟨e1, e2⟩ := hna rfl
+    simp only at e1 e2
+    subst e1 e2
+    cases hr0 : nanRepl gtB ahv mhv <;> cases hr1 : nanRepl ltB alv mlv <;> cases t0 <;> cases t1 <;>
+      simp_all [stepLo, stepHi, recordRow, rowSpec, putTime, putTimeOther, upd2, Tr.upd]
+  · obtain ⟨e3, e4⟩ := hnm rfl
+    simp only at e3 e4
+    subst e3 e4
+    cases hr0 : nanRepl gtB ahv mhv <;> cases hr1 : nanRepl ltB alv mlv <;>
+      simp [stepLo, stepHi, recordRow, rowSpec, putTime, putTimeOther, upd2, Tr.upd, hr0, hr1]
+  · cases hr0 : nanRepl gtB ahv mhv <;> cases hr1 : nanRepl ltB alv mlv <;>
+      simp [stepLo, stepHi, recordRow, rowSpec, putTime, putTimeOther, upd2, Tr.upd, hr0, hr1]
 
 theorem zipWith_fuse {A B : Type} (f g h : A → B → A) : ∀ (as : List A) (ms : List B),
     List.zipWith h (List.zipWith g (List.zipWith f as ms) ms) ms
@@ -357,24 +366,47 @@ theorem zipWith_congr_mem {A B C : Type} (f g : A → B → C) : ∀ (as : List 
         zipWith_congr_mem f g as ms fun a' ha m' hm =>
           h a' (List.mem_cons_of_mem _ ha) m' (List.mem_cons_of_mem _ hm)⟩
 
-/-- `extrema` on aligned tables that both have abscissae, or both have none: every row is updated on
-its own -/
-theorem extremaTbl_uniform (j : Nat) (a : Acc α X Lb) (hx : Bool)
-    (ms : List (Cur α (Option X) String)) (ha : a.hasX = hx)
-    (hna : hx = false → ∀ r ∈ a.rows, NoX r.cur) (hnm : hx = false → ∀ m ∈ ms, NoX m) :
-    extremaTbl j a hx ms = { a with rows := List.zipWith (rowSpec j) a.rows ms } := by
-  unfold extremaTbl
-  simp only [ha]
-  generalize ((List.zipWith (recordRow hx j) a.rows ms).zip ms).any _ = t0
-  generalize ((List.zipWith (stepHi hx hx t0) (List.zipWith (recordRow hx j) a.rows ms) ms).zip ms).any _ = t1
+theorem zipWith_congr_zip {A B C : Type} (f g : A → B → C) : ∀ (as : List A) (ms : List B),
+    (∀ p ∈ as.zip ms, f p.1 p.2 = g p.1 p.2) → List.zipWith f as ms = List.zipWith g as ms
+  | [], _, _ => by simp
+  | _ :: _, [], _ => by simp
+  | a :: as, m :: ms, h => by
+      simp only [List.zipWith_cons_cons, List.cons.injEq]
+      exact ⟨h (a, m) (by simp), zipWith_congr_zip f g as ms fun p hp => h p (by simp [hp])⟩
+
+theorem mem_zipWith {A B C : Type} (f : A → B → C) : ∀ (as : List A) (ms : List B) (c : C),
+    c ∈ List.zipWith f as ms → ∃ p ∈ as.zip ms, c = f p.1 p.2
+  | [], _, _, h => by simp at h
+  | _ :: _, [], _, h => by simp at h
+  | a :: as, m :: ms, c, h => by
+      simp only [List.zipWith_cons_cons, List.mem_cons] at h
+      rcases h with rfl | h
+      · exact ⟨(a, m), by simp, rfl⟩
+      · obtain ⟨p, hp, hc⟩ := mem_zipWith f as ms c h
+        exact ⟨p, by simp [hp], hc⟩
+
+/-- the flag `ext_x is not None` after a later call -/
+def hasXAfter (a : Acc α X Lb) (valX : Bool) (ms : List (Cur α (Option X) String)) : Bool :=
+  a.hasX || (valX && (a.rows.zip ms).any fun p => nanRepl gtB p.1.cur.hi.v p.2.hi.v) ||
+    (valX && (a.rows.zip ms).any fun p => nanRepl ltB p.1.cur.lo.v p.2.lo.v)
+
+/-- `extrema` on aligned tables, whatever the two sides have of abscissae (a table without `ext_x`
+carrying NaN abscissae): every row is updated on its own -/
+theorem extremaTbl_rowwise (j : Nat) (a : Acc α X Lb) (valX : Bool)
+    (ms : List (Cur α (Option X) String))
+    (hna : a.hasX = false → ∀ r ∈ a.rows, NoX r.cur) (hnm : valX = false → ∀ m ∈ ms, NoX m) :
+    extremaTbl j a valX ms
+      = { a with hasX := hasXAfter a valX ms, rows := List.zipWith (rowSpec j) a.rows ms } := by
+  unfold extremaTbl hasXAfter
+  simp only
   rw [zipWith_fuse]
-  have hrows : List.zipWith (fun a m => stepLo (hx || hx && t0) hx t1 (stepHi hx hx t0 (recordRow hx j a m) m) m)
-      a.rows ms = List.zipWith (rowSpec j) a.rows ms :=
-    zipWith_congr_mem _ _ _ _ fun r hr m hm =>
-      step_uniform hx t0 t1 j r m (fun h => hna h r hr) (fun h => hnm h m hm)
-  rw [hrows]
-  have hb : (hx || hx && t0 || hx && t1) = hx := by cases hx <;> simp
-  rw [hb, ← ha]
+  congr 1
+  apply zipWith_congr_zip
+  intro p hp
+  have hp1 : p.1 ∈ a.rows := (List.of_mem_zip hp).1
+  have hp2 : p.2 ∈ ms := (List.of_mem_zip hp).2
+  exact step_rowwise a.hasX valX _ _ j p.1 p.2 (fun h => hna h p.1 hp1) (fun h => hnm h p.2 hp2)
+    (fun h => List.any_eq_true.2 ⟨p, hp, h⟩) (fun h => List.any_eq_true.2 ⟨p, hp, h⟩)
 
 theorem noX_upd2 (c m : Cur α (Option X) String) (hc : NoX c) (hm : NoX m) :
     NoX (upd2 (some c) (m.hi, m.lo)) := by
